@@ -204,9 +204,11 @@ def rule_cli_generate(ctx):
             obs.append(bad('OUT-PATH', 'generate/dest', 'destination path is built from %s with %s and constants %s' % (sorted(fields), sorted(xfs), sorted(map(str, consts))),
                            creates[0].get('sp', ''), 'output lands in the wrong file'))
         # both alternatives use extension rs
-        ext_calls = [n for n in walk(fn.body) if n['k'] == 'mcall' and n['method'] == 'with_extension']
-        exts = {a['lit']['v'] for n in ext_calls for a in n['args'] if a.get('k') == 'lit'}
-        if exts != {'rs'} or len(ext_calls) < 2:
+        ext_calls = [n for _f, n in H.deep_nodes(ctx, fn, creates[0]['args'][0], 2, None, True) if n['k'] == 'mcall' and n['method'] == 'with_extension']
+        exts = {a['lit']['v'] if a.get('k') == 'lit' else '<computed>' for n in ext_calls for a in n['args']}
+        # every way the destination derives from the query path / output directory goes through with_extension
+        uncovered = [o for o, xs in TM.paths(dest) if o[0] == 'field' and o[1].split('.')[-1] in ('query_path', 'output_directory') and 'with_extension' not in xs]
+        if exts != {'rs'} or uncovered:
             obs.append(bad('OUT-PATH', 'generate/extension', 'with_extension constants %s at %d sites' % (sorted(exts), len(ext_calls)), fn.loc, 'wrong extension'))
         # NO-WRITE-ON-ERROR
         c = creates[0]
@@ -325,22 +327,56 @@ def rule_introspect(ctx):
             obs.append(ok('REQ-BUILD', 'introspect/default-headers', 'Content-Type and Accept: application/json', ch.loc))
         else:
             obs.append(bad('REQ-BUILD', 'introspect/default-headers', 'default headers %s = %s' % (sorted(gl & {'CONTENT_TYPE', 'ACCEPT'}), sorted(lits)), ch.loc, 'server rejects the request'))
-    # --- DOC-PAIRING: every QueryBody literal pairs QUERY and OPERATION_NAME of the same module
-    bodies = [n for n in walk(fn.body) if n['k'] == 'struct' and n.get('adt', '').endswith('QueryBody')]
+    # --- DOC-PAIRING: every QueryBody literal of the CLI pairs QUERY and OPERATION_NAME of the same module
+    bodies = [(f_, n) for f_, n in ctx.prog.aggregates_norm.get('graphql_client::QueryBody', []) if f_.key.startswith('cli::') and not f_.from_macro]
     mods = {}
-    for b in bodies:
+    flag_assign = [(one, url) for one in (False, True) for url in (False, True)]
+
+    def flag_atoms(one, url):
+        def atoms(t):
+            if t[0] == 'param' and t[3] in ('is_one_of', 'specify_by_url'):
+                return one if t[3] == 'is_one_of' else url
+            return None
+        return atoms
+
+    def doc_of(t):
+        return t[1] if t[0] == 'global' else (t[1] if t[0] == 'const' and isinstance(t[1], str) else '')
+
+    computed = {}        # (one, url) -> (query path, operation-name path, node) for literals whose fields are computed
+    npairs = 0
+    for bf, b in bodies:
         f = {x['name']: x['e'] for x in b['fields']}
-        q = f.get('query', {}).get('res', {}).get('path', '')
-        o = f.get('operation_name', {}).get('res', {}).get('path', '')
-        mq, mo = q.rsplit('::', 1)[0], o.rsplit('::', 1)[0]
-        inst = 'introspect/body[%s]' % mq.split('::')[-1]
-        if q.endswith('::QUERY') and o.endswith('::OPERATION_NAME') and mq == mo:
-            obs.append(ok('DOC-PAIRING', inst, 'QUERY and OPERATION_NAME of the same generated module', b.get('sp', '')))
-            mods[id(b)] = mq.split('::')[-1]
+        q = f.get('query', {}).get('res', {}).get('path', '') if f.get('query', {}).get('k') == 'path' else ''
+        o = f.get('operation_name', {}).get('res', {}).get('path', '') if f.get('operation_name', {}).get('k') == 'path' else ''
+        if q.endswith('::QUERY') or o.endswith('::OPERATION_NAME'):
+            pairs = [(None, q, o)]
         else:
-            obs.append(bad('DOC-PAIRING', inst, 'query from `%s`, operationName from `%s`' % (q, o), b.get('sp', ''), 'operationName names an operation the document does not define'))
-    if len(bodies) < 4:
-        obs.append(bad('DOC-PAIRING', 'floor', 'anchor-missing: expected 4 QueryBody literals, found %d' % len(bodies)))
+            # computed fields: decide which constants they are for each flag combination
+            benv = H.sym_env(bf)
+            qt = ctx.pv.eval(bf, f['query'], benv, 0) if 'query' in f else ('absent',)
+            ot = ctx.pv.eval(bf, f['operation_name'], benv, 0) if 'operation_name' in f else ('absent',)
+            pairs = []
+            for one, url in flag_assign:
+                qe = Q.QEval(ctx.pv, [], flag_atoms(one, url))
+                try:
+                    pairs.append(((one, url), doc_of(Q.select_leaf(qe, qt)), doc_of(Q.select_leaf(qe, ot))))
+                except Q.Undecided as ex:
+                    obs.append(undecided('DOC-PAIRING', 'introspect/body(is_one_of=%s,specify_by_url=%s)' % (one, url),
+                                         'cannot decide which document/operationName the literal carries (%s)' % ex, b.get('sp', '')))
+        for key, q, o in pairs:
+            mq, mo = q.rsplit('::', 1)[0], o.rsplit('::', 1)[0]
+            inst = 'introspect/body[%s]' % mq.split('::')[-1]
+            npairs += 1
+            if q.endswith('::QUERY') and o.endswith('::OPERATION_NAME') and mq == mo:
+                obs.append(ok('DOC-PAIRING', inst, 'QUERY and OPERATION_NAME of the same generated module', b.get('sp', '')))
+                if key is None:
+                    mods[id(b)] = mq.split('::')[-1]
+                else:
+                    computed[key] = (mq.split('::')[-1], b)
+            else:
+                obs.append(bad('DOC-PAIRING', inst, 'query from `%s`, operationName from `%s`' % (q, o), b.get('sp', ''), 'operationName names an operation the document does not define'))
+    if npairs < 4:
+        obs.append(bad('DOC-PAIRING', 'floor', 'anchor-missing: expected 4 QueryBody (document, operationName) pairs, found %d' % npairs))
     # --- DOC-CONTENT: the derive structs and their documents
     docs = {}
     for it in cli.ast_items:
@@ -383,8 +419,37 @@ def rule_introspect(ctx):
     for st in blk.get('stmts', []):
         if st['k'] == 'let' and st.get('init') is not None and st['init'].get('k') == 'struct' and st['init'].get('adt', '').endswith('QueryBody') and st['pat'].get('k') == 'bind':
             target = st['pat']['hid']
-    if target is None or len(docs) < 4:
-        obs.append(undecided('DOC-TABLE', 'introspect/table', 'request body is not built as `let mut body = ..; if .. { body = .. }`', fn.loc))
+    def table_verdict(inst, m, sp):
+        d = docs.get(m)
+        if d is None:
+            obs.append(bad('DOC-TABLE', inst, 'body comes from module `%s` which is not one of the derived introspection operations' % m, sp, 'wrong document'))
+        elif d['isOneOf'] == one and d['specifiedByURL'] == url:
+            obs.append(ok('DOC-TABLE', inst, '-> %s (isOneOf:%s specifiedByURL:%s)' % (d['file'].split('/')[-1], d['isOneOf'], d['specifiedByURL']), sp))
+        else:
+            obs.append(bad('DOC-TABLE', inst, 'selects %s whose document has isOneOf=%s specifiedByURL=%s' % (d['file'].split('/')[-1], d['isOneOf'], d['specifiedByURL']),
+                           sp, 'the flags do not select the matching introspection document'))
+
+    if target is None and len(docs) >= 4 and len(jsons) == 1:
+        # the body is computed as a value (helper fn / match on the flags): select the literal that reaches .json()
+        bt = ctx.pv.eval(fn, jsons[0]['args'][0], env, 0)
+        for one, url in flag_assign:
+            inst = 'introspect/flags(is_one_of=%s,specify_by_url=%s)' % (one, url)
+            try:
+                leaf = Q.select_leaf(Q.QEval(ctx.pv, [], flag_atoms(one, url)), bt)
+            except Q.Undecided as ex:
+                obs.append(undecided('DOC-TABLE', inst, 'cannot decide which body is sent (%s)' % ex, fn.loc))
+                continue
+            node = ctx.pv.fn_by_key[leaf[2]].nodes.get(leaf[3]) if leaf[0] == 'agg' and leaf[1].endswith('QueryBody') else None
+            if node is None:
+                obs.append(undecided('DOC-TABLE', inst, 'the value sent is not a QueryBody literal (%s)' % P.show(leaf, 0, 3)[:80], fn.loc))
+            elif id(node) in mods:
+                table_verdict(inst, mods[id(node)], node.get('sp', ''))
+            elif (one, url) in computed and computed[(one, url)][1] is node:
+                table_verdict(inst, computed[(one, url)][0], node.get('sp', ''))
+            else:
+                obs.append(undecided('DOC-TABLE', inst, 'the literal sent carries no decided document', node.get('sp', '')))
+    elif target is None or len(docs) < 4:
+        obs.append(undecided('DOC-TABLE', 'introspect/table', 'request body is not built as `let mut body = ..; if .. { body = .. }` nor as a value selected by the flags', fn.loc))
     else:
         def atoms_for(assign):
             def atoms(t):
@@ -418,15 +483,7 @@ def rule_introspect(ctx):
                 if undec or cur is None or cur.get('k') != 'struct':
                     obs.append(undecided('DOC-TABLE', inst, 'cannot follow the assignments (%s)' % undec, fn.loc))
                     continue
-                m = mods.get(id(cur))
-                d = docs.get(m)
-                if d is None:
-                    obs.append(bad('DOC-TABLE', inst, 'body comes from module `%s` which is not one of the derived introspection operations' % m, cur.get('sp', ''), 'wrong document'))
-                elif d['isOneOf'] == one and d['specifiedByURL'] == url:
-                    obs.append(ok('DOC-TABLE', inst, '-> %s (isOneOf:%s specifiedByURL:%s)' % (d['file'].split('/')[-1], d['isOneOf'], d['specifiedByURL']), cur.get('sp', '')))
-                else:
-                    obs.append(bad('DOC-TABLE', inst, 'selects %s whose document has isOneOf=%s specifiedByURL=%s' % (d['file'].split('/')[-1], d['isOneOf'], d['specifiedByURL']),
-                                   cur.get('sp', ''), 'the flags do not select the matching introspection document'))
+                table_verdict(inst, mods.get(id(cur)), cur.get('sp', ''))
     # --- STATUS + OUT-AFTER-SUCCESS
     status_ifs = []
     for n in walk(fn.body):
@@ -485,6 +542,19 @@ def rule_introspect(ctx):
                 guards.append(ctx.pv.eval(h, n['cond'], henv, 0))
         gtxt = [P.show(g, 0, 6) for g in guards]
         has_colon = any("contains" in g and "':'" in g and g.startswith('!') for g in gtxt)
+        # or: the split itself refuses — `split_once(':')` / `find(':')` whose None is turned into Err
+        for n in walk(h.body):
+            if n['k'] == 'mcall' and n['method'] in ('split_once', 'find') and [a['lit']['v'] for a in n['args'] if a.get('k') == 'lit'] == [':']:
+                kind, det = H.consumption(h, n)
+                if kind == 'propagated':
+                    has_colon = True
+                elif kind == 'letelse':
+                    has_colon = True
+                elif kind == 'match':
+                    for a in det['arms']:
+                        ps = P.pat_summary(a['pat'])
+                        if ps[0] == 'ctor' and ps[1].endswith('None') and (returns_err(a['body']) or (P.diverges(a['body']) and any(x['k'] == 'ret' and returns_err(x) for x in walk(a['body'])))):
+                            has_colon = True
         has_empty = any('is_empty' in g for g in gtxt)
         has_ws = any('split' in g and 'count' in g or 'whitespace' in g for g in gtxt)
         for name, good, what in (('colon', has_colon, 'input without a colon'), ('empty-name', has_empty, 'an empty header name'), ('whitespace-name', has_ws, 'a name containing whitespace')):
@@ -512,7 +582,8 @@ def rule_introspect(ctx):
             f = {x['name']: ctx.pv.eval(h, x['e'], henv, 0) for x in aggs[0]['fields']}
             nt = {x for _, xs in TM.paths(f.get('name', ('unit',))) for x in xs}
             vt = {x for _, xs in TM.paths(f.get('value', ('unit',))) for x in xs}
-            idx = lambda t: sorted({s[3][1] for s in P.subterms(t) if s[0] == 'sel' and len(s) > 3 and s[3][0] == 'const'})
+            idx = lambda t: sorted({s[3][1] for s in P.subterms(t) if s[0] == 'sel' and len(s) > 3 and s[3][0] == 'const'} |
+                                   {s[2] for s in P.subterms(t) if s[0] == 'tproj' and s[1][0] == 'xf' and s[1][1] == 'split'})
             if 'trim' in nt and 'trim' in vt and idx(f['name']) == [0] and idx(f['value']) == [1]:
                 obs.append(ok('HEADER-GUARDS', 'Header::from_str/parts', 'name = trimmed part before, value = trimmed part after the colon', h.loc))
             else:
